@@ -96,25 +96,25 @@ structure Params where
 deriving DecidableEq, Repr
 
 def Params.gen : Params where
-  baseDonors := Gen.baseDonors
-  baseAcceptors := Gen.baseAcceptors
-  phosphateAcceptors := Gen.phosphateAcceptors
-  riboseAcceptors := Gen.riboseAcceptors
-  baseEdges := Gen.baseEdges
-  maxDist := Gen.hbondMaxDistance
-  encLo := Gen.cosSqLoEnc
-  encHi := Gen.cosSqHiEnc
-  minCount := Gen.minHbondCount
-  purineLetters := Gen.purineLetters
-  glycoPurine := Gen.glycoPurine
-  glycoOther := Gen.glycoOther
-  glycoSugar := Gen.glycoSugar
-  normalPurineLetters := Gen.normalPurineLetters
-  normalPurine := Gen.normalPurine
-  normalOther := Gen.normalOther
-  bphTable := Gen.bphTable
-  mergeRules := Gen.mergeRules
-  dedupPoints := Gen.pointsDeduplicated
+  baseDonors := Gen.Ann.baseDonors
+  baseAcceptors := Gen.Ann.baseAcceptors
+  phosphateAcceptors := Gen.Ann.phosphateAcceptors
+  riboseAcceptors := Gen.Ann.riboseAcceptors
+  baseEdges := Gen.Ann.baseEdges
+  maxDist := Gen.Ann.hbondMaxDistance
+  encLo := Gen.Ann.cosSqLoEnc
+  encHi := Gen.Ann.cosSqHiEnc
+  minCount := Gen.Ann.minHbondCount
+  purineLetters := Gen.Ann.purineLetters
+  glycoPurine := Gen.Ann.glycoPurine
+  glycoOther := Gen.Ann.glycoOther
+  glycoSugar := Gen.Ann.glycoSugar
+  normalPurineLetters := Gen.Ann.normalPurineLetters
+  normalPurine := Gen.Ann.normalPurine
+  normalOther := Gen.Ann.normalOther
+  bphTable := Gen.Ann.bphTable
+  mergeRules := Gen.Ann.mergeRules
+  dedupPoints := Gen.Ann.pointsDeduplicated
 
 def Params.spec : Params where
   baseDonors := Spec.PairsChemistry.baseDonors
